@@ -423,7 +423,11 @@ pub fn project(bank: &Bank, ids: &Ids) -> Value {
             } else if is_mint {
                 if let Some((auth, supply, dec, init, freeze)) = mint_fields(&a.data) {
                     let exts = if prog == "t22" { t22_extension_types(&a.data) } else { vec![] };
-                    mint.insert(me, json!({"auth": auth.map(|d| id(&d)).unwrap_or("none".into()), "supply": nu(supply as u128),
+                    let tf = match if prog == "t22" { t22_transfer_fee_config(&a.data) } else { None } {
+                        Some((o, n)) => json!({"has": true, "older": {"epoch": nu(o.0 as u128), "max": nu(o.1 as u128), "bps": o.2}, "newer": {"epoch": nu(n.0 as u128), "max": nu(n.1 as u128), "bps": n.2}}),
+                        None => json!({"has": false, "older": {"epoch": 0, "max": 0, "bps": 0}, "newer": {"epoch": 0, "max": 0, "bps": 0}}),
+                    };
+                    mint.insert(me, json!({"tf": tf,"auth": auth.map(|d| id(&d)).unwrap_or("none".into()), "supply": nu(supply as u128),
                         "decimals": dec, "init": init, "freeze": freeze.map(|d| id(&d)).unwrap_or("none".into()), "prog": prog, "exts": exts}));
                 }
             }
